@@ -38,7 +38,9 @@ struct Sys {
     testnet: bool,
     blocks: u32,
     /// what is needed to disconnect the connected blocks again, newest last
-    undo: Vec<(lightning_signer::txoo::proof::TxoProof, lightning_signer::chain::tracker::Headers)>,
+    /// (proof, previous tip, what the block carried: 0 nothing, 20 + d the funding transaction of
+    /// channel d, 10 + d the transaction that spends channel d's funding output)
+    undo: Vec<(lightning_signer::txoo::proof::TxoProof, lightning_signer::chain::tracker::Headers, u64)>,
     /// one case in three runs on the transactional store of a daemon that keeps its state in the
     /// cloud: every request (sometimes two or three) inside enter() .. prepare() .. commit()
     in_txn: bool,
@@ -93,23 +95,67 @@ impl Sys {
         }
         sys
     }
-    /// connect one empty block the way the AddBlock handler does (tracker, then its store entry)
-    fn add_block(&mut self) -> bool {
-        use lightning_signer::util::test_utils::make_testnet_header;
+    /// the transaction whose output d funds channel d
+    fn funding_tx(d: u64) -> lightning_signer::bitcoin::Transaction {
+        use lightning_signer::bitcoin::{absolute::LockTime, hashes::Hash, transaction::Version, Amount, OutPoint, ScriptBuf, Sequence, Transaction, TxIn, TxOut, Txid, Witness};
+        Transaction {
+            version: Version::TWO,
+            lock_time: LockTime::ZERO,
+            input: vec![TxIn { previous_output: OutPoint { txid: Txid::all_zeros(), vout: 70 + d as u32 }, script_sig: ScriptBuf::new(), sequence: Sequence::MAX, witness: Witness::default() }],
+            output: (0..6).map(|i| TxOut { value: Amount::from_sat(3_000_000), script_pubkey: ScriptBuf::from(vec![0x00, 0x20, i as u8, 7, 7, 7, 7, 7, 7, 7, 7, 7, 7, 7, 7, 7, 7, 7, 7, 7, 7, 7, 7, 7, 7, 7, 7, 7, 7, 7, 7, 7, 7, 7]) }).collect(),
+        }
+    }
+    /// a transaction that spends channel d's funding output and is no commitment transaction
+    /// (what the channel monitor takes for a cooperative close)
+    fn closing_tx(d: u64) -> lightning_signer::bitcoin::Transaction {
+        use lightning_signer::bitcoin::{absolute::LockTime, transaction::Version, Amount, OutPoint, ScriptBuf, Sequence, Transaction, TxIn, TxOut, Witness};
+        Transaction {
+            version: Version::TWO,
+            lock_time: LockTime::ZERO,
+            input: vec![TxIn { previous_output: OutPoint { txid: Sys::funding_tx(d).compute_txid(), vout: d as u32 }, script_sig: ScriptBuf::new(), sequence: Sequence::MAX, witness: Witness::default() }],
+            output: vec![TxOut { value: Amount::from_sat(2_999_000), script_pubkey: ScriptBuf::from(vec![0x00, 0x14, d as u8, 9, 9, 9, 9, 9, 9, 9, 9, 9, 9, 9, 9, 9, 9, 9, 9, 9, 9, 9]) }],
+        }
+    }
+    /// connect one block the way the AddBlock handler does (tracker, then its store entry).
+    /// `what`: 0 nothing of interest, 20 + d the funding transaction of d, 10 + d the close of d
+    fn add_block_with(&mut self, what: u64) -> bool {
+        use lightning_signer::bitcoin::blockdata::constants::genesis_block;
+        use lightning_signer::bitcoin::hashes::Hash;
+        use lightning_signer::bitcoin::{absolute::LockTime, merkle_tree, transaction::Version, Block, Network, Transaction, TxMerkleNode};
+        use lightning_signer::txoo::proof::TxoProof;
+        use lightning_signer::util::test_utils::mine_header_with_bits;
         let mut tracker = self.node.get_tracker();
         let prev = tracker.tip().clone();
-        let (header, proof) = make_testnet_header(tracker.tip(), tracker.height());
+        let height = tracker.height();
+        let mut txs: Vec<Transaction> = vec![Transaction { version: Version::non_standard(0), lock_time: LockTime::from_consensus(height + 1), input: vec![], output: vec![] }];
+        match what {
+            0 => {}
+            w if w >= 20 => txs.push(Sys::funding_tx(w - 20)),
+            w => txs.push(Sys::closing_tx(w - 10)),
+        }
+        let tx_ids: Vec<_> = txs.iter().map(|tx| tx.compute_txid().to_raw_hash()).collect();
+        let merkle_root = TxMerkleNode::from_raw_hash(merkle_tree::calculate_root(tx_ids.into_iter()).unwrap().into());
+        let bits = genesis_block(Network::Regtest).header.bits;
+        let header = mine_header_with_bits(prev.0.block_hash(), merkle_root, bits);
+        let block = Block { header, txdata: txs };
+        let proof = TxoProof::prove_unchecked(&block, &prev.1, height + 1);
         let ok = tracker.add_block(header, proof.clone()).is_ok();
         self.world.dyn_persister().update_tracker(&self.node_id, &tracker).expect("update_tracker");
         self.blocks += 1;
         if ok {
-            self.undo.push((proof, prev));
+            self.undo.push((proof, prev, what));
         }
         ok
     }
+    fn in_chain(&self, what: u64) -> bool {
+        self.undo.iter().any(|u| u.2 == what)
+    }
+    fn add_block(&mut self) -> bool {
+        self.add_block_with(0)
+    }
     /// disconnect the newest connected block the way the RemoveBlock handler does
     fn remove_block(&mut self) -> bool {
-        let (proof, prev) = match self.undo.pop() {
+        let (proof, prev, _) = match self.undo.pop() {
             Some(x) => x,
             None => return true,
         };
@@ -290,9 +336,17 @@ fn run(args: &Args) {
                 // (at most three: stubs are pruned six blocks after their creation)
                 // (the first block stays: a tracker at height 0 is moved to the checkpoint by a restart)
                 choice = if sys.undo.len() >= 2 && rng.chance(1, 3) { 101 } else if sys.blocks < 3 { 100 } else { 10 };
-            } else if !sys.testnet && choice == 10 && rng.chance(1, 2) {
+            } else if !sys.testnet && (choice == 10 || choice == 17) && rng.chance(1, 2) {
                 // Regtest: blocks come and go too
                 choice = if !sys.undo.is_empty() && rng.chance(1, 2) { 101 } else { 100 };
+            }
+            // a set-up channel whose funding (or the spend of it) is not in the chain yet draws blocks
+            let pending_chain = (1..=4u64).any(|d| {
+                let k = sys.slot_kind(d);
+                (k == "SReady" || k == "SForgot") && (!sys.in_chain(20 + d) || !sys.in_chain(10 + d))
+            });
+            if pending_chain && (!sys.testnet || sys.blocks < 3) && rng.chance(1, 4) {
+                choice = 100;
             }
             let mut restarted = false;
             let (coq, j, res): (String, serde_json::Value, Result<bool, ()>) = match choice {
@@ -315,7 +369,7 @@ fn run(args: &Args) {
                     // a setup that policy refuses (contest delay below the minimum), whatever the slot is:
                     // for the model just a refused request
                     let mut setup = make_test_channel_setup();
-                    setup.funding_outpoint.vout = dbid as u32;
+                    setup.funding_outpoint = lightning_signer::bitcoin::OutPoint { txid: Sys::funding_tx(dbid).compute_txid(), vout: dbid as u32 };
                     if rng.chance(1, 2) {
                         setup.holder_selected_contest_delay = 2;
                     } else {
@@ -335,7 +389,7 @@ fn run(args: &Args) {
                 }
                 4..=6 => {
                     let mut setup = make_test_channel_setup();
-                    setup.funding_outpoint.vout = dbid as u32;
+                    setup.funding_outpoint = lightning_signer::bitcoin::OutPoint { txid: Sys::funding_tx(dbid).compute_txid(), vout: dbid as u32 };
                     // a third of the channels get a permanent id that differs from the temporary one
                     let perm = if dbid % 3 == 0 || rng.chance(1, 4) {
                         let mut b = vec![0xaau8; 32];
@@ -370,13 +424,27 @@ fn run(args: &Args) {
                     (format!("ForgetChannel {}", dbid), json!(["forget_channel", dbid]), r.map_err(|_| ()))
                 }
                 100 => {
-                    // a connected block changes nothing the node model tracks
-                    let ok = sys.add_block();
-                    ("Heartbeat".to_string(), json!(["add_block", sys.blocks]), Ok(ok))
+                    // a connected block changes nothing the node model tracks; what the monitors and
+                    // the tracker's watch sets make of it is compared across a restart: some blocks
+                    // carry the funding transaction of the channels, later ones the spend of a
+                    // channel's funding output
+                    // (a funding transaction confirms only after the signer was told about the channel)
+                    let ready: Vec<u64> = (1..=4u64).filter(|d| sys.slot_kind(*d) == "SReady" || sys.slot_kind(*d) == "SForgot").collect();
+                    let unfunded: Vec<u64> = ready.iter().copied().filter(|d| !sys.in_chain(20 + d)).collect();
+                    let open: Vec<u64> = ready.iter().copied().filter(|d| sys.in_chain(20 + d) && !sys.in_chain(10 + d)).collect();
+                    let what = if !unfunded.is_empty() && rng.chance(3, 4) {
+                        20 + *rng.pick(&unfunded)
+                    } else if !open.is_empty() && rng.chance(3, 4) {
+                        10 + *rng.pick(&open)
+                    } else {
+                        0
+                    };
+                    let r = catch_unwind(AssertUnwindSafe(|| sys.add_block_with(what)));
+                    ("Heartbeat".to_string(), json!(["add_block", sys.blocks, what]), r.map_err(|_| ()))
                 }
                 101 => {
-                    let ok = sys.remove_block();
-                    ("Heartbeat".to_string(), json!(["remove_block", sys.undo.len()]), Ok(ok))
+                    let r = catch_unwind(AssertUnwindSafe(|| sys.remove_block()));
+                    ("Heartbeat".to_string(), json!(["remove_block", sys.undo.len()]), r.map_err(|_| ()))
                 }
                 10 if rng.chance(1, 2) => {
                     use vls_protocol::msgs::{self, SerBolt};
@@ -543,7 +611,7 @@ fn run(args: &Args) {
             obs.push(format!("({}, {})", coq_bool(ok), observe(&sys)));
             jops.push(json!({"op": j, "st": if ok { "Ok" } else { "Refused" }}));
         }
-        if sys.in_txn {
+        if sys.in_txn && !c10.iter().any(|v| v.ends_with("panicked")) {
             let (a, b) = sys.txn_end("the last transaction of the history");
             c10.extend(a);
             c11.extend(b);
